@@ -258,7 +258,9 @@ fn check_case(c: &Case, run: &Run, steps: &AtomicU64, stats: &[AtomicU64; 4]) {
 
 pub fn run(run: &Run) {
     let thorough = run.thorough();
-    let csid_menu: Vec<(u32, u8)> = vec![(3, 1), (4, 1), (64, 2), (320, 3)];
+    // 65 (2-byte form) and 320 (3-byte form) differ only in which length byte is significant:
+    // 320 = 64 + 256*1 + 0, 65 = 64 + 1; likewise 66 / 576
+    let csid_menu: Vec<(u32, u8)> = if thorough { vec![(3, 1), (4, 1), (65, 2), (320, 3), (64, 2), (576, 3), (66, 2)] } else { vec![(3, 1), (4, 1), (65, 2), (320, 3)] };
     let ts_menu: Vec<u32> = vec![5, 0xFF_FFFF, 0x100_0000];
     let chunk_sizes: Vec<u32> = if thorough { vec![1, 2, 128] } else { vec![2, 128] };
     // outer combos are generated sequentially, evaluated in parallel
